@@ -2,10 +2,10 @@
    Outcomes of the model: a value, BareScriptRuntimeError (ORt), BareScriptParserError from an include (OParse), "any other
    Python exception in flight" (OExc), out of fuel, model declined.  Containment = OExc never comes out of eval / exec,
    for EVERY library behaviour (the library is universally quantified: it may raise anything, on any arguments). *)
-From BS Require Import Model.Base Model.Num Model.Arith Model.ExprParser Model.Script Model.Interp Proofs.C05.
+From BS Require Import Model.Base Model.Num Model.Arith Model.ExprParser Model.Script Model.Interp Proofs.C05 Proofs.Total.
 
 (* PREMISE parser_contained: parsing an included text never lets a host exception escape (C06's territory; Props/C06.v
-   proves it for the parser model up to two named residual branches). *)
+   C06_total proves it for the parser model; it is discharged below in C05_parser_contained / C05_contained_unconditional). *)
 Theorem C05_contained : forall cfg lib url_rel lint_lines, parser_contained ->
   forall fuel,
     (forall e loc bi um w r m, fst (eval cfg lib url_rel lint_lines fuel e loc bi um w) <> OExc r m) /\
@@ -15,6 +15,18 @@ Proof.
   split; intros; [apply He|apply Hx].
 Qed.
 Print Assumptions C05_contained.
+
+(* the premise holds for the parser model (C06_total: parse_script never reports a host exception) ... *)
+Theorem C05_parser_contained : parser_contained.
+Proof. intros txt what. exact (parse_script_total [txt] 1 what). Qed.
+Print Assumptions C05_parser_contained.
+
+(* ... hence containment without any premise *)
+Corollary C05_contained_unconditional : forall cfg lib url_rel lint_lines fuel,
+    (forall e loc bi um w r m, fst (eval cfg lib url_rel lint_lines fuel e loc bi um w) <> OExc r m) /\
+    (forall code pc cache loc um w r m, fst (fst (exec cfg lib url_rel lint_lines fuel code pc cache loc um w)) <> OExc r m).
+Proof. intros cfg lib url_rel lint_lines. exact (C05_contained cfg lib url_rel lint_lines C05_parser_contained). Qed.
+Print Assumptions C05_contained_unconditional.
 
 (* expression evaluation needs no premise at all when no include can run: stated for the operators alone *)
 Theorem C05_operators_never_raise : forall op w a b r m, binop op w a b <> OExc r m.
